@@ -39,7 +39,7 @@ func leafDomain(t reflect.Type) []reflect.Value {
 	case reflect.Int32:
 		return mk(int32(0), int32(1), int32(2), int32(3), int32(-1), int32(math.MaxInt32))
 	case reflect.Int64:
-		return mk(int64(0), int64(1), int64(2), int64(3), int64(-1), int64(math.MaxInt64), int64(1<<53+1))
+		return mk(int64(0), int64(1), int64(2), int64(3), int64(-1), int64(math.MaxInt64), int64(1<<53+1), int64(1<<53))
 	case reflect.Uint:
 		return mk(uint(0), uint(1), uint(2), uint(3), uint(math.MaxUint))
 	case reflect.Uint8:
@@ -49,7 +49,7 @@ func leafDomain(t reflect.Type) []reflect.Value {
 	case reflect.Uint32:
 		return mk(uint32(0), uint32(1), uint32(2), uint32(3), uint32(math.MaxUint32))
 	case reflect.Uint64:
-		return mk(uint64(0), uint64(1), uint64(2), uint64(3), uint64(math.MaxUint64))
+		return mk(uint64(0), uint64(1), uint64(2), uint64(3), uint64(math.MaxUint64), uint64(math.MaxUint64-1))
 	case reflect.Uintptr:
 		return mk(uintptr(0), uintptr(1), uintptr(2))
 	case reflect.Float32:
